@@ -193,6 +193,8 @@ func (ix *BM25SearchIndex) Add(id uint32, text string) error {
 	if _, exists := ix.docTokens[id]; exists {
 		ix.removeInternal(id)
 	}
+	// A re-added document is live again, even if it was soft-deleted before
+	ix.deletedDocs.Remove(id)
 
 	normText := normalize(text)
 	tokens := tokenize(normText)
